@@ -16,6 +16,7 @@ import time
 from concurrent.futures import ThreadPoolExecutor
 
 from . import build as B
+from ._util import spread_preexec
 from .props import PROPS
 
 VERIF = B.VERIF
@@ -102,7 +103,7 @@ class Worker:
         with open(self.err, "w") as ef:
             try:
                 p = subprocess.run(self.cmd(extra), stdout=ef, stderr=subprocess.STDOUT, env=self.env(), timeout=timeout,
-                                   preexec_fn=self._limits())
+                                   preexec_fn=spread_preexec(self._limits()))
                 self.rc = p.returncode
                 self.timed_out = False
             except subprocess.TimeoutExpired:
@@ -236,7 +237,7 @@ class FuzzWorker(Worker):
                 e["VF_DUMP_CASE"] = witness
                 with open(self.err + ".repro", "w") as ef:
                     try:
-                        p = subprocess.run([self.exe, arts[0]], stdout=ef, stderr=subprocess.STDOUT, env=e, timeout=600)
+                        p = subprocess.run([self.exe, arts[0]], stdout=ef, stderr=subprocess.STDOUT, env=e, timeout=600, preexec_fn=spread_preexec())
                         rc2, to2 = p.returncode, False
                     except subprocess.TimeoutExpired:
                         rc2, to2 = None, True
